@@ -111,6 +111,10 @@ ipc_pipe_stop(void *arg)
 	nni_aio_stop(&p->tx_aio);
 	nni_aio_stop(&p->neg_aio);
 	nng_stream_stop(p->conn);
+	if (ep == NULL) {
+		// pipe creation failed before the endpoint adopted the pipe
+		return;
+	}
 	nni_mtx_lock(&ep->mtx);
 	nni_list_node_remove(&p->node);
 	nni_mtx_unlock(&ep->mtx);
